@@ -1,6 +1,8 @@
 #!/venv/bin/python
 """Apply a seeded breaking change (seeded/<id>/patch.diff) to /repo, run the named checks, undo the change.
-usage: tools/eval_seeded.py <seeded-id> [--tier quick|thorough] CNN [CNN ...]      (results appended to seeded/<id>/results.json)"""
+usage: tools/eval_seeded.py <seeded-id> [--tier quick|thorough] [--in DIR] CNN [CNN ...]      (results appended to seeded/<id>/results.json)
+With --in DIR the change is applied to the scratch worktree DIR (which must hold the compiled filters) and the checks run
+with VERIF_REPO=DIR, so /repo is not touched."""
 import json, os, subprocess, sys, time
 ROOT = os.path.dirname(os.path.dirname(os.path.abspath(__file__)))
 
@@ -16,28 +18,32 @@ def main():
     if args and args[0] == "--tier":
         args.pop(0)
         tier = args.pop(0)
+    repo = "/repo"
+    if args and args[0] == "--in":
+        args.pop(0)
+        repo = args.pop(0)
     d = os.path.join(ROOT, "seeded", sid)
     patch = os.path.join(d, "patch.diff")
-    st = sh("git -C /repo status --porcelain --untracked-files=no")
+    st = sh(f"git -C {repo} status --porcelain --untracked-files=no")
     if st.stdout.strip():
-        sys.exit("refusing: /repo has uncommitted changes to tracked files")
-    r = sh(f"git -C /repo apply {patch}")
+        sys.exit(f"refusing: {repo} has uncommitted changes to tracked files")
+    r = sh(f"git -C {repo} apply {patch}")
     if r.returncode:
         sys.exit("patch does not apply: " + r.stderr)
     out = {}
     try:
-        t = sh("cd /repo && env -u SMPL_EXTRACT_VERIF /venv/bin/python -m pytest -q -p no:cacheprovider 2>&1 | tail -1")
+        t = sh(f"cd {repo} && env -u SMPL_EXTRACT_VERIF /venv/bin/python -m pytest -q -p no:cacheprovider 2>&1 | tail -1")
         out["baseline_tests"] = t.stdout.strip()
         for c in args:
             t0 = time.time()
-            r = sh(f"cd {ROOT} && ./check {c} --tier {tier}")
+            r = sh(f"cd {ROOT} && VERIF_REPO={repo} ./check {c} --tier {tier}")
             lines = [l for l in r.stdout.splitlines() if not l.startswith('<<"CASE"')]
             viol = [l for l in lines if l.startswith("VIOLATION")]
             first = next((l.strip() for l in lines if l.strip().startswith("what:")), "")
             out[c] = {"rc": r.returncode, "violations": len(viol), "first": first[:300], "wall_s": round(time.time() - t0, 1), "tier": tier}
             print(c, "rc", r.returncode, "violations", len(viol), first[:160])
     finally:
-        sh("git -C /repo checkout -- .")
+        sh(f"git -C {repo} checkout -- .")
         sh(f"rm -rf {ROOT}/replays/*")
     p = os.path.join(d, "results.json")
     old = json.load(open(p)) if os.path.exists(p) else {}
